@@ -238,7 +238,60 @@ def cli_no_dump_case(ctx, case):
         shutil.rmtree(root, ignore_errors=True)
 
 
+def cache_state_check(ctx, batch, states):
+    """the calls of batch in fresh processes whose copy of the package holds another state of the parse-table cache"""
+    import json as _json
+    import shutil as _shutil
+    import subprocess
+    import sys
+    from vf.checks import c20 as _c20
+    snap_root = os.environ.get("VF_SNAPSHOT", "")
+    bcode = ("import json, sys\nfrom simple_ddl_parser import DDLParser\nres = []\nfor ddl, kw in json.loads(sys.stdin.read()):\n"
+             "    try:\n        res.append(['ok', DDLParser(ddl).run(**kw)])\n    except Exception as e:\n        res.append(['exc', type(e).__name__, str(e)[:200]])\n"
+             "print('VFRESULT' + json.dumps(res))\n")
+
+    def child(root):
+        env = dict(os.environ, PYTHONPATH=root + os.pathsep + os.environ.get("PYTHONPATH", ""))
+        d = tempfile.mkdtemp(prefix="vf_c14p_")
+        try:
+            r = subprocess.run([sys.executable, "-B", "-c", bcode], input=_json.dumps(batch), capture_output=True, text=True, timeout=600, env=env, cwd=d)
+        except subprocess.TimeoutExpired:
+            return None
+        finally:
+            _shutil.rmtree(d, ignore_errors=True)
+        lines = [l for l in r.stdout.splitlines() if l.startswith("VFRESULT")]
+        return _json.loads(lines[-1][len("VFRESULT"):]) if lines else None
+    base = child(snap_root) if snap_root and os.path.isdir(os.path.join(snap_root, "simple_ddl_parser")) else None
+    if base is None:
+        ctx.inconclusive_because("no baseline result for the cache-state processes")
+    else:
+        for state in states:
+            root = tempfile.mkdtemp(prefix="vf_c14c_")
+            try:
+                _shutil.copytree(os.path.join(snap_root, "simple_ddl_parser"), os.path.join(root, "simple_ddl_parser"))
+                if _c20.inject(state, root, snap_root) is None:
+                    ctx.obs["cache_state_not_buildable:" + state] += 1
+                    continue
+                for phase in ("first process", "second process"):
+                    got = child(root)
+                    ctx.evaluated(len(batch))
+                    ctx.obs["calls_in_a_process_with_another_cache_state"] += len(batch)
+                    if got is None:
+                        ctx.inconclusive_because("cache-state process produced no result (%s)" % state)
+                        break
+                    bad = [k for k in range(len(batch)) if got[k] != base[k]]
+                    if bad:
+                        k = bad[0]
+                        ctx.violation("depends_on_the_parse_table_cache", {"gen": "cache_state", "ddl": batch[k][0], "args": batch[k][1], "state": state},
+                                      {"state": state, "process": phase, "with_valid_cache": short(base[k], 300), "observed": short(got[k], 300), "differing_calls": len(bad)})
+                        break
+            finally:
+                _shutil.rmtree(root, ignore_errors=True)
+
+
 def check_case(ctx, case):
+    if case.get("gen") == "cache_state":
+        return cache_state_check(ctx, [[case["ddl"], case.get("args") or {}]], [case["state"]])
     if case.get("gen") == "cli_no_dump":
         return cli_no_dump_case(ctx, case)
     if case.get("gen") == "cross_script":
@@ -406,6 +459,14 @@ def run_shard(ctx):
         elif outs[0] != outs[1]:
             ctx.violation("depends_on_first_object_of_the_process", {"gen": "fresh_pair", "ddl": ddl, "args": kw, "first_ctor": firsts[(j + ctx.shard) % len(firsts)]},
                           {"first_object_ctor": firsts[(j + ctx.shard) % len(firsts)], "alone": short(outs[0], 300), "after_first_object": short(outs[1], 300)})
+    # (2b3) "in another process" whose copy of the package holds another state of the parse-table CACHE (parsetab.py missing / of another
+    #       grammar revision with other tables): the cache is no argument of the call, the result may not depend on it
+    if ctx.shard < (1 if ctx.tier == "quick" else 4):
+        batch = []
+        for j in range(12 if ctx.tier == "quick" else 60):
+            batch.append([gen_script(rng), {k: v for k, v in gen_args(rng).items() if k in ("output_mode", "group_by_type")}])
+        batch.append(["CREATE SEQUENCE dev.incremental_ids INCREMENT BY 10 START WITH 1;\nCREATE TABLE s.t2 (a timestamp without time zone, b int REFERENCES p (k) ON UPDATE SET NULL);\n", {}])
+        cache_state_check(ctx, batch, ["missing", "stale_signature_wrong_tables"] if ctx.tier == "quick" else ["missing", "stale_signature_wrong_tables", "older_version_wrong_tables", "stale_signature_same_tables"])
     # (2c) the command line entry point with --no-dump, for one file and for a directory
     for j in range(ctx.budget(24, 400)):
         files = {n: gen_script(rng) for n in rng.sample(["a.sql", "b.ddl", "c.hql", "notes.txt", "d.bql"], rng.randint(1, 3))}
